@@ -346,6 +346,12 @@ func ParseContractFile(path, pkgPath string) ([]*Contract, error) {
 			if w == "call" {
 				var callee string
 				callee, r2 = splitWord(r2)
+				// instances of generic functions have a space inside their brackets
+				for strings.Count(callee, "[") > strings.Count(callee, "]") && r2 != "" {
+					var more string
+					more, r2 = splitWord(r2)
+					callee += " " + more
+				}
 				where = "call " + callee
 			}
 			k, r3 := splitWord(r2)
